@@ -19,6 +19,7 @@ from liquid2.builtin import parse_parameters
 from liquid2.builtin import parse_positional_and_keyword_arguments
 from liquid2.builtin import parse_string_or_identifier
 from liquid2.builtin import string_or_identifier_str
+from liquid2.exceptions import LiquidError
 from liquid2.undefined import Undefined
 from liquid2.undefined import is_undefined
 
@@ -36,6 +37,8 @@ class Macro:
 
     args: dict[str, Parameter]
     block: BlockNode
+    source_name: str | None = None
+    """The name of the template that defines the macro, if it is known."""
 
 
 @dataclass(kw_only=True, slots=True)
@@ -82,9 +85,23 @@ class MacroNode(Node):
         # Macro tags don't render or evaluate anything, just store their arguments list
         # and block on the render context so it can be called later by a `call` tag.
         context.tag_namespace["macros"][self.name] = Macro(
-            args=self.args, block=self.block
+            args=self.args,
+            block=self.block,
+            source_name=self._source_name(context),
         )
         return 0
+
+    def _source_name(self, context: RenderContext) -> str | None:
+        """Return the name of the template this node belongs to, if it is known.
+
+        A macro can be called from another template, one that includes the
+        template defining it for example. Errors raised in its body are reported
+        against the defining template.
+        """
+        template = context.template
+        if template.nodes and template.nodes[0].token.source == self.token.source:
+            return template.full_name()
+        return None
 
     def expressions(self) -> Iterable[Expression]:
         """Return this node's expressions."""
@@ -187,7 +204,16 @@ class CallNode(Node):
             carry_loop_iterations=True,
         )
 
-        return macro.block.render(macro_context, buffer)
+        try:
+            return macro.block.render(macro_context, buffer)
+        except LiquidError as err:
+            if (
+                not err.template_name
+                and macro.source_name
+                and err.is_located_in(macro.block.token)
+            ):
+                err.template_name = macro.source_name
+            raise
 
     async def render_to_output_async(
         self,
@@ -226,7 +252,16 @@ class CallNode(Node):
             carry_loop_iterations=True,
         )
 
-        return await macro.block.render_async(macro_context, buffer)
+        try:
+            return await macro.block.render_async(macro_context, buffer)
+        except LiquidError as err:
+            if (
+                not err.template_name
+                and macro.source_name
+                and err.is_located_in(macro.block.token)
+            ):
+                err.template_name = macro.source_name
+            raise
 
     def macro_args(self, macro: Macro) -> BoundArgs:
         """Bind this call's arguments to macro parameter names."""
